@@ -11,6 +11,7 @@ import (
 	"net"
 	"sort"
 	"strconv"
+	"strings"
 
 	"golang.org/x/crypto/ssh"
 	"golang.org/x/crypto/verifh/core"
@@ -371,6 +372,13 @@ func (r *run) serverOpen(sconn *ssh.ServerConn, i int) {
 	r.openSent[i] = true
 	ch, rq, err := sconn.OpenChannel(typ, payload)
 	if err != nil {
+		if r.ended {
+			// the connection went away under the open: it was not answered
+			// by the client, it may still sit in the client's queues
+			r.openRes[i] = "unanswered: " + err.Error()
+			rt.Event("open%d ended with the connection", i)
+			return
+		}
 		r.openRes[i] = "rejected: " + err.Error()
 		rt.Event("open%d rejected", i)
 		return
@@ -525,7 +533,7 @@ func (r *run) onIdle() bool {
 			if st.closeCalled && !st.closeDone {
 				pend := 0
 				for k, o := range r.scn.Opens {
-					if o.Exact && o.Target == i && r.openRes[k] == "" {
+					if o.Exact && o.Target == i && (r.openRes[k] == "" || strings.HasPrefix(r.openRes[k], "unanswered")) {
 						pend++
 					}
 				}
@@ -541,7 +549,7 @@ func (r *run) onIdle() bool {
 					}
 					q := 0
 					for k, op := range r.scn.Opens {
-						if op.Exact && op.Target == j && r.openRes[k] == "" {
+						if op.Exact && op.Target == j && (r.openRes[k] == "" || strings.HasPrefix(r.openRes[k], "unanswered")) {
 							q++
 						}
 					}
